@@ -15,6 +15,8 @@ AttrAtoms == {
   Plain("id", AvStr(<<"a", "sp", "sp", "b">>)),
   Plain("title", AvStr(<<"a", "sp", "lf", "sp", "b", "sp">>)),
   Plain("alt", AvStr(<<"a", "tab", "b", "sp", "sp">>)),       \* a tab on a single line
+  Plain("pattern", AvStr(<<"a", "bs", "b", "bsn">>)),         \* backslashes stay backslashes
+  Plain("label", AvStr(<<"a", "amp", "b", "apos", "lt">>)),   \* entities are decoded
   Plain("disabled", AvNone),
   Plain("foo", AvExpr(Ident("b1", TRUE, Opq("vb1")))),
   Plain("bar", AvExpr(Ident("u1", FALSE, Num(7)))),
